@@ -1,0 +1,118 @@
+//! Verification seam (only compiled with `--cfg llguidance_verif`).
+//!
+//! Lets an external deterministic simulator own the few sources of
+//! nondeterminism this crate has: which caller acquires a shared lock next,
+//! where a caller is preempted inside a critical section, which worker of the
+//! thread pool runs which step, and when lexer fuel runs out.
+//!
+//! With no hooks installed every function here is a no-op (or, for the rayon
+//! shim, a plain sequential loop), so behaviour is unchanged.
+
+use std::sync::{Mutex, OnceLock, TryLockError};
+
+type Job<'a> = Box<dyn FnOnce() + Send + 'a>;
+
+pub struct Hooks {
+    /// Called at points where the simulator may switch to another task.
+    pub sched_point: fn(site: &'static str),
+    /// Called by a task that found a lock busy; must let some other task run.
+    pub blocked: fn(site: &'static str),
+    /// Cooperative fault point; returning true triggers the (legal) unusual behaviour.
+    pub buggify: fn(site: &'static str) -> bool,
+    /// Fire-and-forget task (rayon::spawn).
+    pub spawn: fn(job: Job<'static>),
+    /// Run all jobs, possibly interleaved; must not return before all of them finished.
+    pub run_all: for<'a> fn(jobs: Vec<Job<'a>>),
+}
+
+static HOOKS: OnceLock<Hooks> = OnceLock::new();
+
+/// Install hooks; can be done once per process. Returns false if already installed.
+pub fn install(hooks: Hooks) -> bool {
+    HOOKS.set(hooks).is_ok()
+}
+
+#[inline]
+pub fn sched_point(site: &'static str) {
+    if let Some(h) = HOOKS.get() {
+        (h.sched_point)(site);
+    }
+}
+
+#[inline]
+pub fn buggify(site: &'static str) -> bool {
+    if let Some(h) = HOOKS.get() {
+        (h.buggify)(site)
+    } else {
+        false
+    }
+}
+
+/// To be placed on the line before `m.lock()`.
+/// The real mutex stays the source of truth about who holds the lock:
+/// we only return once `try_lock()` would have succeeded (or the lock is poisoned),
+/// letting other simulated tasks run in the meantime.
+pub fn before_lock<T: ?Sized>(m: &Mutex<T>, site: &'static str) {
+    if let Some(h) = HOOKS.get() {
+        loop {
+            (h.sched_point)(site);
+            match m.try_lock() {
+                Ok(_) | Err(TryLockError::Poisoned(_)) => return,
+                Err(TryLockError::WouldBlock) => (h.blocked)(site),
+            }
+        }
+    }
+}
+
+/// Drop-in replacement for the two rayon entry points used by `ffi_par.rs`.
+pub mod rayon_shim {
+    use super::{Job, HOOKS};
+
+    pub fn spawn<F>(f: F)
+    where
+        F: FnOnce() + Send + 'static,
+    {
+        if let Some(h) = HOOKS.get() {
+            (h.spawn)(Box::new(f));
+        } else {
+            f();
+        }
+    }
+
+    pub struct ParVec<T>(Vec<T>);
+
+    impl<T: Send> ParVec<T> {
+        pub fn for_each<F>(self, f: F)
+        where
+            F: Fn(T) + Sync + Send,
+        {
+            if let Some(h) = HOOKS.get() {
+                let f = &f;
+                let jobs: Vec<Job<'_>> = self
+                    .0
+                    .into_iter()
+                    .map(|item| Box::new(move || f(item)) as Job<'_>)
+                    .collect();
+                (h.run_all)(jobs);
+            } else {
+                for item in self.0 {
+                    f(item);
+                }
+            }
+        }
+    }
+
+    pub mod prelude {
+        pub trait IntoParallelIterator {
+            type Item;
+            fn into_par_iter(self) -> super::ParVec<Self::Item>;
+        }
+
+        impl<T: Send> IntoParallelIterator for Vec<T> {
+            type Item = T;
+            fn into_par_iter(self) -> super::ParVec<T> {
+                super::ParVec(self)
+            }
+        }
+    }
+}
